@@ -44,8 +44,8 @@ def tier_for(sz, quick_sizes):
 
 # ---------------------------------------------------------------------------------------------------
 # K1 src/lib.rs
-add('k1_lib', 'copy_bytes_memmove_80', 'copy_bytes_contract::<80>()', props=['C01', 'C05'], tier='q', cost=60, macro='p')
-add('k1_lib', 'copy_bytes_memmove_260', 'copy_bytes_contract::<260>()', props=['C01', 'C05'], tier='t', cost=500, macro='p')
+add('k1_lib', 'copy_bytes_memmove_80', 'copy_bytes_contract::<80>()', props=['C01', 'C05'], tier='q', cost=60, macro='p', attrs=['#[kani::unwind(130)]'])
+add('k1_lib', 'copy_bytes_memmove_260', 'copy_bytes_contract::<260>()', props=['C01', 'C05'], tier='t', cost=500, macro='p', attrs=['#[kani::unwind(130)]'])
 add('k1_lib', 'copy_bytes_large_forwards', 'copy_bytes_large_h()', props=['C01', 'C05'], tier='q', cost=2, macro='p',
     attrs=['#[kani::stub(core::ptr::copy, crate::kani_verif::k1_lib::stub_copy_record)]', '#[kani::unwind(2)]'])
 add('k1_lib', 'copy_bytes_unwound_b8', 'copy_bytes_unwound_h()', props=['C01'], tier='t', kind='bounded', bound='count < 8 in a 16-byte object, loops unwound (no loop contracts)',
@@ -341,7 +341,8 @@ for n in (1, 3, 8, 24):
         attrs=['#[kani::unwind(10)]'], flags=['nolc'], cost=30, macro='p')
 add('k1_loops', 'nop_clone', 'nop_clone_h()', props=['C08'], tier='q', cost=2, macro='p')
 B3 = 'real Stack<16> vector of u32 (capacity 4), every state and index in that bound, real copy_bytes unwound'
-add('k1_loops', 'k3_insert', 'k3_insert_h()', props=['C01', 'C05'], tier='q', kind='bounded', bound=B3, attrs=['#[kani::unwind(20)]'], flags=['nolc'], cost=60, macro='p')
+add('k1_loops', 'k3_insert_u8', 'k3_insert_h::<u8, 4>()', props=['C01', 'C05'], tier='q', kind='bounded', bound='real Stack<4> vector of u8 (capacity 4), every state and index in that bound, real copy_bytes unwound', attrs=['#[kani::unwind(20)]'], flags=['nolc'], cost=40, macro='p')
+add('k1_loops', 'k3_insert', 'k3_insert_h::<u32, 16>()', props=['C01', 'C05'], tier='q', kind='bounded', bound=B3, attrs=['#[kani::unwind(20)]'], flags=['nolc'], cost=60, macro='p')
 add('k1_loops', 'k3_remove', 'k3_remove_h()', props=['C01', 'C05'], tier='t', kind='bounded', bound=B3, attrs=['#[kani::unwind(20)]'], flags=['nolc'], cost=60, macro='p')
 
 
